@@ -42,3 +42,41 @@ Proof.
   { destruct k; try reflexivity. congruence. }
   rewrite E. cbn. repeat split.
 Qed.
+
+(* ---------- mutators: the flag part of _replace_other / _replace_self, the guards and the per-child step of
+   _propagate_implicit_values, translated statement by statement (SSA over the fields) ---------- *)
+Lemma src_ob_eqb a b : Src.ob_eqb a b = ob_eqb a b.
+Proof. reflexivity. Qed.
+
+Lemma src_mset k v l : Src.mset k v l = mset k v l.
+Proof. induction l as [|[k' v'] r IH]; cbn; [reflexivity|]. destruct (k =? k'); [reflexivity|]. now rewrite IH. Qed.
+
+Lemma src_mupd a b : Src.mupd a b = mupd a b.
+Proof. unfold Src.mupd, mupd. revert a. induction b as [|kv r IH]; intro a; cbn; [reflexivity|]. now rewrite src_mset, IH. Qed.
+
+Lemma src_replace_other_flags f g : Src.replace_other_flags f g = absorb f g.
+Proof.
+  unfold Src.replace_other_flags, absorb, set_meta, set_dsafe, set_safe, and_safe, onone. cbn. rewrite src_mupd.
+  destruct (f_safe g), (f_dsafe g); reflexivity.
+Qed.
+
+Lemma src_replace_self_flags f g : Src.replace_self_flags f g = become f g.
+Proof.
+  unfold Src.replace_self_flags, become, set_meta, set_dsafe, set_safe, set_del, set_prio, and_safe, onone. cbn. rewrite src_mupd.
+  destruct (f_safe g), (f_dsafe g); reflexivity.
+Qed.
+
+Lemma src_prop_stops f : Src.prop_stops f = prop_stops f.
+Proof. unfold Src.prop_stops, prop_stops. destruct (f_idel f), (f_inew f), (f_isafe f), (f_del f), (f_new f), (f_safe f); reflexivity. Qed.
+
+Lemma src_pc_flags f ddel c : Src.pc_flags f ddel c = pc_flags f (if ddel then Some true else f_idel f) c.
+Proof.
+  unfold Src.pc_flags, pc_flags. cbn zeta. change Src.ob_eqb with ob_eqb.
+  set (idel := if ddel then Some true else f_idel f).
+  destruct (f_del f) as [d|], (f_new f) as [n|], (f_safe f) as [s|]; cbn [negb];
+    destruct (ob_eqb (f_idel c) idel); cbn [negb set_idel set_inew set_isafe f_idel f_inew f_isafe orb andb];
+    destruct (ob_eqb (f_inew c) (f_inew f)); cbn [negb set_idel set_inew set_isafe f_idel f_inew f_isafe orb andb];
+    destruct (ob_eqb (f_isafe c) (f_isafe f)); cbn [negb set_idel set_inew set_isafe f_idel f_inew f_isafe orb andb];
+    destruct (ob_eqb (f_isafe c) (Some false)); cbn [negb set_idel set_inew set_isafe f_idel f_inew f_isafe orb andb fst snd];
+    try reflexivity; destruct c; cbn; reflexivity.
+Qed.
